@@ -10,12 +10,14 @@ import (
 	"github.com/hujm2023/go-sms-protocol/cmpp"
 	"pgregory.net/rapid"
 
+	"verifharness/gen"
 	"verifharness/vk"
 )
 
 var rec = vk.NewRecorder("C17")
 
 func TestMain(m *testing.M) {
+	vk.Disturb = gen.Disturb
 	code := m.Run()
 	rec.Flush("all")
 	os.Exit(code)
@@ -57,10 +59,38 @@ func checkTuple(t Tuple) *vk.Violation {
 	return nil
 }
 
-type ID struct{ U uint64 }
+type ID struct {
+	U uint64
+	// First names the function that is called before everything else in this evaluation ("parse": the
+	// scanner on the reference rendering, "string", "split"; "" = the usual order). Together with a
+	// cold start (vk.ColdEval) every function of the file is met as the very first call of a process.
+	First string `json:"first,omitempty"`
+}
+
+func refString(u uint64) string {
+	r := refSplit(u)
+	return fmt.Sprintf("%02d%02d%02d%02d%02d%07d%05d", r.Month, r.Day, r.Hour, r.Minute, r.Second, r.Gateway, r.Sequence)
+}
 
 func checkID(c ID) *vk.Violation {
 	u := c.U
+	switch c.First {
+	case "parse":
+		if u != 0 {
+			if back := cmpp.MsgIDString2Uint64(refString(u)); back != u {
+				return vk.Violf("String2Uint64/reference-string", c, "MsgIDString2Uint64(%q) = %#016x, want %#016x (the string is the specified rendering of the id)", refString(u), back, u)
+			}
+		}
+	case "string":
+		if s := cmpp.MsgID2String(u); u != 0 && s != refString(u) {
+			return vk.Violf("MsgID2String/format", c, "MsgID2String(%#016x) = %q, want %q", u, s, refString(u))
+		}
+	case "split":
+		a, b, cc, d, e, f, g := cmpp.SplitMsgID(u)
+		if (Tuple{a, b, cc, d, e, f, g}) != refSplit(u) {
+			return vk.Violf("SplitMsgID/layout", c, "SplitMsgID(%#016x) = %v", u, []uint64{a, b, cc, d, e, f, g})
+		}
+	}
 	a, b, cc, d, e, f, g := cmpp.SplitMsgID(u)
 	if (Tuple{a, b, cc, d, e, f, g}) != refSplit(u) {
 		return vk.Violf("SplitMsgID/layout", c, "SplitMsgID(%#016x) = %v, specification layout gives %+v", u, []uint64{a, b, cc, d, e, f, g}, refSplit(u))
@@ -111,7 +141,7 @@ var reg = vk.Registry{
 	},
 }
 
-func init() { reg["sequence"] = vk.SequenceReplayer(reg) }
+func init() { reg["sequence"] = vk.SequenceReplayer(reg); reg["cold"] = vk.ColdReplayer() }
 
 func TestReplay(t *testing.T) { vk.RunReplay(t, reg) }
 
@@ -125,7 +155,7 @@ func evalTuple(t vk.TB, tu Tuple) {
 	rec.ReportSeq(t, "tuple", tu, func() *vk.Violation { return checkTuple(tu) })
 	// the composed id also goes through the id-side checks
 	rec.Eval()
-	cid := ID{refCompose(tu)}
+	cid := ID{U: refCompose(tu)}
 	rec.ReportSeq(t, "id", cid, func() *vk.Violation { return checkID(cid) })
 }
 
@@ -198,7 +228,7 @@ func TestEnumFields(t *testing.T) {
 			rec.Eval()
 			rec.NonTrivial("id", u)
 			rec.Sample("id", fmt.Sprintf("%#016x", u))
-			rec.Report(t, "id", checkID(ID{u}))
+			rec.Report(t, "id", checkID(ID{U: u}))
 		}
 	}
 }
@@ -214,6 +244,28 @@ func TestRandom(t *testing.T) {
 		u := rapid.Uint64().Draw(t, "id")
 		rec.Eval()
 		rec.NonTrivial("id", u)
-		rec.ReportSeq(t, "id", ID{u}, func() *vk.Violation { return checkID(ID{u}) })
+		rec.ReportSeq(t, "id", ID{U: u}, func() *vk.Violation { return checkID(ID{U: u}) })
 	})
+}
+
+// TestColdStart: every function of the file as the first library call of a fresh process (shard 0 only).
+func TestColdStart(t *testing.T) {
+	if rec.Env().Shard != 0 {
+		return
+	}
+	ids := []uint64{refCompose(Tuple{10, 3, 23, 59, 58, 1234567, 65535}), refCompose(Tuple{1, 1, 0, 0, 1, 1, 1}), ^uint64(0)}
+	for i, first := range []string{"parse", "string", "split", ""} {
+		c := ID{U: ids[i%len(ids)], First: first}
+		rec.Eval()
+		rec.NonTrivialConstructed(1)
+		rec.Class("cold_start_first_call:" + map[string]string{"": "combine/split"}[first] + first)
+		if v := vk.ColdEval("id", c); v != nil {
+			rec.Report(t, "cold", v)
+		}
+	}
+	tu := Tuple{12, 31, 23, 59, 59, 1<<22 - 1, 65535}
+	rec.Eval()
+	if v := vk.ColdEval("tuple", tu); v != nil {
+		rec.Report(t, "cold", v)
+	}
 }
